@@ -14,7 +14,9 @@ SIDES = ('A', 'B')
 
 def _pay(rng, k):
     r = rng.random()
-    if r < 0.1:
+    if r < 0.07:
+        return (b'', b'')                           # the empty payload: "no element" once it has been on the wire
+    if r < 0.16:
         return (b'm%d' % k, b'')                    # metadata only
     return (b'' if r < 0.6 else b'm%d' % k, b'd%d' % k)
 
